@@ -296,8 +296,9 @@ fn is_btor_keyword(k: &[u8]) -> bool {
 impl Monitor for C08 {
     fn case(&mut self, idx: u64, rng: &mut Rng, rep: &mut Report) {
         let pk = drive::ALL_PK[(idx % 7) as usize];
-        let cfg = drive::random_cfg(rng, pk);
+        let mut cfg = drive::random_cfg(rng, pk);
         if self.mode == "range" {
+            cfg = drive::random_cfg_skip(rng, pk);
             let size = if rng.chance(1, 40) { 200 } else { 10 };
             let input = corpus::draw(rng, cfg, size);
             let bytes = &input.bytes;
